@@ -51,7 +51,7 @@ Spec == Init /\ [][Next]_vars
 TypeOK == /\ o \in 1..Len(Ops) /\ i \in 1..N /\ j \in 1..N /\ k \in 1..N
           /\ res = Result(o, i, j)
 
-R == res
+R == res          \* the defined result at the cursor
 
 B2N(p) == IF p THEN 1 ELSE 0
 
